@@ -90,9 +90,6 @@ where
     if d.1 = 0xFFFD && !(c == 0xef && t.take 2 == [0xbf, 0xbd]) then
       -- invalid byte: skipped (`c == utf8.RuneError` with size 1)
       go ((c :: t).drop d.2) fuel
-    else if d.1 = 0xFFFD then
-      -- a real U+FFFD in the input is also `utf8.RuneError`: skipped
-      go ((c :: t).drop d.2) fuel
     else if c == 0x5c && (match t with | 0x72 :: _ => true | _ => false) then
       b!"\\u000D" ++ go (t.drop 1) fuel
     else if c == 0x5c && (match t with | 0x6e :: _ => true | _ => false) then
@@ -218,7 +215,7 @@ def applyFilter (name : Bytes) (i p : V) : FRes :=
       | [] => mkStr []
   else if name == b!"center" then
     let width := p.v.toInt.toInt
-    let slen : Int := i.v.len
+    let slen : Int := (Utf8.runes s).length   -- the width of the text, also for a number
     if width ≤ slen then .ok i
     else
       let spaces := width - slen
@@ -268,7 +265,7 @@ def applyFilter (name : Bytes) (i p : V) : FRes :=
     if !i.v.canSlice then .ok i
     else
       let sep := p.v.toS
-      if sep = [] then mkStr s
+      if sep = [] && i.v.isString then mkStr s   -- (an empty separator returns a string input as it is)
       else mkStr (Bytes.join sep (joinVals i.v))
   else if name == b!"length" then mkInt (Int64.ofNat i.v.len)
   else if name == b!"length_is" then mkBool (Int64.ofNat i.v.len == p.v.toInt)
@@ -277,7 +274,7 @@ def applyFilter (name : Bytes) (i p : V) : FRes :=
     let lines := Bytes.splitOn b!"\n" s
     mkStr (Bytes.join b!"\n" (lines.zipIdx.map fun (l, k) => Bytes.decimal (k + 1) ++ b!". " ++ l))
   else if name == b!"ljust" then
-    let times0 := p.v.toInt.toInt - (i.v.len : Int)
+    let times0 := p.v.toInt.toInt - ((Utf8.runes s).length : Int)   -- the width of the text, also for a number
     let times := if times0 < 0 then 0 else times0
     if times > maxCharPadding then .err "ljust: too much padding"
     else mkStr (s ++ Bytes.spaces times.toNat)
@@ -294,13 +291,15 @@ def applyFilter (name : Bytes) (i p : V) : FRes :=
   else if name == b!"make_list" then .ok ⟨.list b!"[]string" ((Utf8.runeStrings s).map Val.str), false⟩
   else if name == b!"pluralize" then
     if i.v.isNumber then
+      -- (1.5 is not one, although its integer part is)
+      let isOne := if i.v.isFloat then i.v.toFloat == 1 else i.v.toInt == 1
       if p.v.len > 0 then
         let endings := Bytes.splitOn b!"," p.v.toS
         if endings.length > 2 then .err "pluralize: more than 2 arguments"
         else if endings.length = 1 then
-          if i.v.toInt != 1 then mkStr (endings.getD 0 []) else mkStr []
-        else if i.v.toInt != 1 then mkStr (endings.getD 1 []) else mkStr (endings.getD 0 [])
-      else if i.v.toInt != 1 then mkStr b!"s" else mkStr []
+          if !isOne then mkStr (endings.getD 0 []) else mkStr []
+        else if !isOne then mkStr (endings.getD 1 []) else mkStr (endings.getD 0 [])
+      else if !isOne then mkStr b!"s" else mkStr []
     else .err "pluralize: only numbers"
   else if name == b!"slice" then
     let comp := Bytes.splitOn b!":" p.v.toS
